@@ -323,13 +323,23 @@ def correspondence(rep, rng, tier):
 def _matching(rep, rng, tier):
     from .. import pipeline as P
     P.matching_search(rep, rng, tier, 'C10')
+    # the result part depends only on the END record: no record between START and END may change it
+    P.window_content_search(rep, rng, tier, 'C10', [n for n in bsd_names(only_supported=False) if n not in EXEMPT])
 
 
 def replay(path):
     import json
     with open(path) as fd:
         r = json.load(fd)
-    rp = r['replay']
+    rp = r.get('replay') or {}
+    if 'section' not in rp and 'case' not in rp:
+        print('nothing to replay (no failing input was recorded):', r.get('no_longer_checks'))
+        return 1
+    if rp.get('section') in ('window-content', 'matching-records'):
+        from .. import pipeline as P
+        rc = P.replay_search(rp, 'C10', path)
+        if rc is not None:
+            return rc
     if rp.get('section') == 'timestamp-order':
         from .. import tsorder
         bad, lines = tsorder.replay(rp)
